@@ -13,6 +13,7 @@ From Coq Require Import List Arith Bool.
 From AM Require Import Rust.Ast Rust.Syntax Rust.Script Gen.HotReloading Gen.Deps
   Proofs.AnsInv Proofs.AnsR Proofs.AnsC Proofs.AnsWork Proofs.Dfs Tie.Answers Tie.Graph.
 Require AM.Ref.Answers AM.Proofs.AnsBridge.
+From AM Require Import Tie.Erasure.
 Import ListNotations.
 
 (* 1. The code has the protocol the theorems are about. *)
@@ -84,6 +85,11 @@ Proof. exact reloader_channels_never_block_senders. Qed.
 (* the thread that runs the loaders and the dependency walk of a pass has the default stack *)
 Theorem C08_code_reloader_thread_has_the_default_stack : spawns_with_default_stack HotReloader_start = true.
 Proof. exact reloader_thread_has_the_default_stack. Qed.
+
+(* a loader (or a destructor) that panics during a reload does not take the reloader thread down:
+   DepsGraph::reload catches the unwinding and treats the reload as failed, so the answer is sent *)
+Theorem C08_code_a_panicking_reload_is_survived : reload_catches DepsGraph_reload = true.
+Proof. exact reload_panic_is_a_failed_reload. Qed.
 
 Theorem C08_code_marks_before_recursing : visit_wf DepsGraph_visit = true.
 Proof. exact visit_marks_before_recursing. Qed.
